@@ -13,6 +13,33 @@ def models():
 
 
 _CACHE = {}
+_ORDER = []          # keys of the cached model objects in the order they were constructed
+_LAST = [None]       # key of the object constructed most recently (cached or not)
+_BYSTANDERS = []
+
+
+def construction_history():
+    """Which model objects this process has constructed and keeps alive, in order, plus the most
+    recently constructed one if it is not among them: part of the history of a case, recorded with
+    a violation so that a replay can re-create it."""
+    h = [list(k) + [True] for k in _ORDER]
+    if _LAST[0] is not None and (not _ORDER or _LAST[0] != ("cached", _ORDER[-1])):
+        if _LAST[0][0] == "fresh":
+            h.append(list(_LAST[0][1]) + [False])
+    return h
+
+
+def rebuild_history(entries):
+    """Fresh process / replay: construct the objects again in the recorded order."""
+    _CACHE.clear()
+    del _ORDER[:]
+    del _BYSTANDERS[:]
+    for e in entries:
+        key, cached = tuple(e[:3]), (e[3] if len(e) > 3 else True)
+        if cached:
+            get_model(*key)
+        else:
+            _BYSTANDERS.append(fresh_model(*key))
 
 
 def get_model(kind, metric=None, pre=False):
@@ -26,6 +53,8 @@ def get_model(kind, metric=None, pre=False):
         if pre:
             m.pre_computed_distance = True
         _CACHE[key] = m
+        _ORDER.append(key)
+        _LAST[0] = ("cached", key)
     return m
 
 
@@ -34,6 +63,7 @@ def fresh_model(kind, metric=None, pre=False):
     m = cls(distance=metric) if metric else cls()
     if pre:
         m.pre_computed_distance = True
+    _LAST[0] = ("fresh", (kind, metric, pre))
     return m
 
 
@@ -47,18 +77,36 @@ def replay_with_history(run_case, prog):
     same object just before ("previous"), and the replay re-creates that one-step history on a
     fresh object."""
     prev = prog.get("previous")
-    cur = {k: v for k, v in prog.items() if k != "previous"}
-    if prev is None or cur["model"] not in ("SupervisedOPF", "SemiSupervisedOPF"):
+    built = prog.get("constructed_before")
+    cur = {k: v for k, v in prog.items() if k not in ("previous", "constructed_before")}
+    if cur["model"] not in ("SupervisedOPF", "SemiSupervisedOPF") or (prev is None and not built):
         return run_case(cur)
     kind, metric, pre = cache_key(cur)
-    m = fresh_model(kind, metric, pre)
-    try:
-        run_case(prev, None, m)
-    except Exception:
-        pass
+    if built:
+        # the objects this process had constructed, in the same order; the one under test among them
+        rebuild_history(built)
+        m = get_model(kind, metric, pre)
+    else:
+        m = fresh_model(kind, metric, pre)
+    if prev is not None:
+        try:
+            run_case(prev, None, m)
+        except Exception:
+            pass
     v = run_case(cur, None, m)
     if v is not None:
-        v["program"] = dict(cur, previous=prev)
+        v["program"] = dict(prog)
+    return v
+
+
+def with_history(v, prev):
+    """Attach the one-step object history and the construction history to a violation."""
+    p = dict(v["program"])
+    if prev is not None and "previous" not in p:
+        p["previous"] = prev
+    if len(construction_history()) > 1 and "constructed_before" not in p:
+        p["constructed_before"] = construction_history()
+    v["program"] = p
     return v
 
 
@@ -99,6 +147,10 @@ def fit_program(prog, fresh=False, model=None):
     if prog["mode"] == "pre":
         W = np.array(prog["W"], dtype=float)
         m = mk(kind, None, True)
+        if prog.get("set_flag"):
+            # the object's configuration is switched through its public property (it may have been
+            # constructed, and used, for the other mode)
+            m.pre_computed_distance = True
         m.pre_distances = W
         if fault is not None:
             from mc.faults import FaultyMatrix
@@ -119,6 +171,8 @@ def fit_program(prog, fresh=False, model=None):
     else:
         X = np.array(prog["X"], dtype=float)
         m = mk(kind, prog["metric"], False)
+        if prog.get("set_flag"):
+            m.pre_computed_distance = False       # a matrix set earlier stays where it is
         Xl = X[:nl].copy()
         if prog.get("labeled_dtype"):
             # the labeled matrix arrives in another dtype (its values are representable in it)
